@@ -775,7 +775,20 @@ impl<'a> Parser<'a> {
             self.parse_re(ix, depth)?
         };
         next = self.check_for_close_paren(next)?;
-        let (end, child) = self.parse_re(next, depth)?;
+        // The truth branch ends at the first `|` on this level. Parsing the branches separately
+        // (instead of splitting a parsed alternation) keeps `(?(c)(?:a|b))` apart from `(?(c)a|b)`.
+        let (end, if_true) = self.parse_branch(next, depth)?;
+        let mut end = self.optional_whitespace(end)?;
+        let mut if_false: Expr = Expr::Empty;
+        if self.re[end..].starts_with('|') {
+            // the remaining branches become the false branch
+            let (after_false, child) = self.parse_re(end + 1, depth)?;
+            end = after_false;
+            if_false = child;
+        } else if self.numeric_backrefs && !self.named_groups.is_empty() {
+            // can't have numeric backrefs and named backrefs (same check as in `parse_re`)
+            return Err(Error::CompileError(CompileError::NamedBackrefOnly));
+        }
         if end == next {
             // Backreference validity checker
             if let Expr::Backref(group) = condition {
@@ -789,22 +802,6 @@ impl<'a> Parser<'a> {
                     )
                 ));
             }
-        }
-        let if_true: Expr;
-        let mut if_false: Expr = Expr::Empty;
-        if let Expr::Alt(mut alternatives) = child {
-            // the truth branch will be the first alternative
-            if_true = alternatives.remove(0);
-            // if there is only one alternative left, take it out the Expr::Alt
-            if alternatives.len() == 1 {
-                if_false = alternatives.pop().expect("expected 2 alternatives");
-            } else {
-                // otherwise the remaining branches become the false branch
-                if_false = Expr::Alt(alternatives);
-            }
-        } else {
-            // there is only one branch - the truth branch. i.e. "if" without "else"
-            if_true = child;
         }
         let inner_condition = if let Expr::Backref(group) = condition {
             Expr::BackrefExistsCondition(group)
